@@ -344,6 +344,16 @@ def check_seq_keymapper(xs, tup, acc, out, seen):
         acc.events += 2 * len(xs)
         if repr(a.items) != repr(b.items) or (a.error is None) != (b.error is None):
             _rep(out, seen, op, 'key_mapper-changes-the-result', {'items': xs, 'plain': a.items, 'with_key_mapper': b.items, 'error': repr(b.error)})
+        # the documented signature is (key_mapper, reduce): both given positionally is the same call
+        fn = {'sum': rs.math.sum, 'mean': rs.math.mean, 'min': rs.math.min, 'max': rs.math.max, 'variance': rs.math.variance,
+              'stddev': rs.math.stddev, 'fvariance': rs.math.formal.variance, 'fstddev': rs.math.formal.stddev}[op]
+        if xs:
+            c = run_plain(op, True, xs)
+            d = _subscribe(rx.from_(tup).pipe(fn(km, True)), len(tup))
+            acc.evals += 2
+            acc.events += 2 * len(xs)
+            if repr(c.items) != repr(d.items) or (c.error is None) != (d.error is None):
+                _rep(out, seen, op, 'positional-arguments-change-the-result', {'items': xs, 'keywords': c.items, 'positional': d.items, 'error': repr(d.error)})
 
 
 def check_grouped(xs, acc, out, seen):
